@@ -2,6 +2,7 @@
 counter, restart decision and restart actions, ranker -> optimiser hand-off) vs the extracted ESControl model.
 The evolution strategy, ranker, gradient optimiser and archive are spies injected through the public es=, ranker=,
 grad_opt= arguments and an archive subclass; all of them write into one call log."""
+import py2v_es
 import json
 import os
 import random
@@ -13,8 +14,12 @@ from es_spies import fr, make_spy_archive, make_spy_es, make_spy_grad, make_spy_
 
 CONFIG = {
     "cone": ["Base/ListUtil.v", "Model/Store.v", "Model/ESControl.v", "Spec/ESControlSpec.v", "Proofs/ESControlProofs.v",
-             "Properties/C10.v"],
-    "trusted": ["Model/ESControl.v models only the emitter's own control decisions; the evolution strategy, ranker, archive sampling and "
+             "Generated/ESGen.v", "Refine/ESRefine.v", "Properties/C10.v"],
+    "extra_property_files": ["Refine/ESRefine.v"],
+    "trusted": ["harness/py2v_es.py: fail-closed translator of _check_restart, the num_parents expression and the restart test of tell() of "
+                "EvolutionStrategyEmitter and GradientArborescenceEmitter into Generated/ESGen.v on every run; Refine/ESRefine.v proves both "
+                "copies equal to Model/ESControl.v for all arguments",
+                "Model/ESControl.v models only the emitter's own control decisions; the evolution strategy, ranker, archive sampling and "
                 "gradient optimiser are inputs (what they answer) and outputs (what they are asked), observed through spies injected via "
                 "es=/ranker=/grad_opt= and an archive subclass"],
     "level_text": "Theorems in coq/Properties/C10.v hold for every configuration (both emitter classes, both selection rules, every restart "
@@ -415,6 +420,7 @@ def report(rep, case, d, driver):
 
 
 def check(rep, tier, seed, driver):
+    py2v_es.report(rep)
     rng = random.Random(seed)
     n = 1500 if tier == "quick" else 16000
     rep.rule = ("random configurations (EvolutionStrategyEmitter / GradientArborescenceEmitter; mu / filter; basic / no_improvement / "
